@@ -250,7 +250,7 @@ class C10(Check):
     id = "C10"
     level = "exploration"
     rule = ("E-in over strings. (i) ALL token strings of length <= 6 (thorough 7) over {a,b,Top,!,',',';',(,)} and all of length "
-            "<= 4 over that alphabet plus {#,Bottom,|} through parse_formula; (ii) all formula ASTs of depth <= 2 over "
+            "<= 4 over that alphabet plus {#,Bottom,|} through parse_formula, and all of length <= 4 with one line break (LF, CRLF, comment + LF, blank line) at every gap; (ii) all formula ASTs of depth <= 2 over "
             "{a,b,Top,Bottom} (3 280) and a depth-3 slice, printed minimally and fully parenthesised, in five "
             "whitespace/comment layouts; (iii) every one-conditional base over the 256 conditionals of C2 and a slice of "
             "three-conditional bases in 8 file layouts (CRLF, blank lines, comments, no trailing newline, one line, tabs) "
@@ -273,6 +273,9 @@ class C10(Check):
         ext = TOK + ["#", "Bottom", "|"]
         for t in ext:
             out.append(("tok", (t,), 3, ext))
+        # line breaks inside / after a formula: every token string of length <= 4 with one break at every gap
+        for t in TOK:
+            out.append(("toknl", (t,), 3, TOK))
         d2 = gen_depth([V("a"), V("b"), TOP, BOT], 2)
         self.nd2 = len(d2)
         for i in range(0, len(d2), 200):
@@ -317,6 +320,17 @@ class C10(Check):
                     obs.append(judge_formula(res, self.id, " ".join(toks), "token-strings"))
             if prefix == ():
                 obs.append(judge_formula(res, self.id, "", "token-strings"))
+        elif kind == "toknl":
+            _k, prefix, more, alpha = task
+            for ln in range(0, more + 1):
+                for tail in itertools.product(alpha, repeat=ln):
+                    toks = list(prefix) + list(tail)
+                    for gap in range(0, len(toks) + 1):
+                        for br in ("\n", "\r\n", " // c\n ", "\n\n"):
+                            if br != "\n" and (gap + len(toks)) % 3:
+                                continue   # the bare break at every gap, the other renderings at every third (gap, length)
+                            s = " ".join(toks[:gap]) + br + " ".join(toks[gap:])
+                            obs.append(judge_formula(res, self.id, s, "token-strings-with-line-break"))
         elif kind == "ast":
             _k, lo, hi, deep = task
             d2 = gen_depth([V("a"), V("b"), TOP, BOT], 2)
